@@ -52,6 +52,7 @@ def run(ctx):
         # clauses it emitted reports "already tracked" for candidates whose forbid clauses no longer exist (shared with C13)
         import c13
         ctx.guard("state-reset" + tag, c13.state_reset, ctx, crate, tag)
+        ctx.guard("soft-solvables-registered" + tag, soft_registered, ctx, crate, crs, tag)
 
 
 def _field_of_recv(b, t, argi=0):
@@ -278,9 +279,10 @@ def closures(ctx, crate, crs, tag):
     if b is None:
         ctx.ob(R, parent, "exists", False, "", "consumer not found")
         return
-    adds = b.calls_to("resolvo::solver::binary_encoding::AtMostOnceTracker::add")
+    vb = view(crate, parent, [AFMC])
+    adds = vb.calls_to("resolvo::solver::binary_encoding::AtMostOnceTracker::add")
     ctx.floor(R, "AtMostOnceTracker::add call sites", len(adds), 1)
-    cls = [cb for cb in crate.bodies if cb.kind == "Closure" and cb.root and strip_generics(cb.root) == parent]
+    cls = [cb for cb in crate.bodies if cb.kind == "Closure" and cb.root and strip_generics(cb.root) in (parent, AFMC)]
     clause_cl = var_cl = None
     for cb in cls:
         names = [t["f"]["name"] for i, t in cb.calls() if t.get("f")]
@@ -360,6 +362,40 @@ def fresh(ctx, crate, crs, tag):
                     inc = True
         ctx.ob(R, b.key, "id=next_id;next_id+=1", ok and inc, b.loc(), "the variable id is the counter value and the counter is advanced by one")
     ctx.floor(R, "VariableMap allocators", n, 2)
+
+
+def soft_registered(ctx, crate, crs, tag):
+    """Every solvable that run_sat installs by decree (the run's own solvable, i.e. a soft requirement) is registered with the
+    at-most-one tracker of its package before the run: a soft requirement names a solvable directly, so it need not ever appear
+    as a candidate of a requirement - the only other place where candidates are registered."""
+    R = "soft-solvables-registered" + tag
+    b = view(crate, SOLVER + "solve", [AFMC])
+    if b is None:
+        ctx.ob(R, SOLVER + "solve", "exists", False, "", "solve not found")
+        return
+    adds = b.calls_to("resolvo::solver::binary_encoding::AtMostOnceTracker::add")
+    n = 0
+    for i, t in b.calls_to(SOLVER + "run_sat"):
+        lv = q.leaves(b, t["args"][1])
+        if "call:root" in lv and not any(x.startswith("field:") for x in lv):
+            continue            # the root is not a solvable of any package
+        n += 1
+        src = q.slice_locals(b, t["args"][1])
+        ok = False
+        for ai, at in adds:
+            if not b.dominates(ai, i):
+                continue
+            var_locals = q.slice_locals(b, at["args"][1])
+            d, _ = q.origin_thru(b, at["args"][0], transparent={"std::collections::hash_map::Entry::or_default", "std::collections::hash_map::Entry::or_insert_with"})
+            keyed = False
+            if d["k"] == "call" and d["t"]["f"]["name"] == "entry":
+                kl = q.leaves(b, d["t"]["args"][1])
+                keyed = "call:solvable_name" in kl and bool(q.slice_locals(b, d["t"]["args"][1]) & src)
+            if (var_locals & src) and keyed:
+                ok = True
+        ctx.ob(R, b.key, "soft-run-solvable-is-registered-first", ok, where_call(b, i),
+               "before a soft requirement is installed its solvable is added to the at-most-one tracker of solvable_name(solvable)")
+    ctx.floor(R, "soft-requirement runs in solve", n, 1)
 
 
 class _Only:
